@@ -45,7 +45,7 @@ REQUIRED_OPS = ['create-keyword', 'create-property', 'create-token', 'create-bui
                 'read-extra', 'sweep-read', 'sweep-peek', 'sweep-readlist', 'sweep-property', 'sweep-parse',
                 'seq-read', 'seq-readlist', 'seq-peeklist', 'seq-unpack', 'seq-pack', 'seq-token', 'seq-cut-read',
                 'seq-cut-readlist', 'table-row']
-MIN_EVALS = {'quick': 1000000, 'thorough': 15000000}
+MIN_EVALS = {'quick': 700000, 'thorough': 15000000}
 ASSUMPTIONS = ['MSB0 mode only (the library documents and enforces that exp-Golomb codes are unusable in lsb0 mode)',
                'H.264 (03/2005) 9.1 / Table 9-2, 9.1.1 and Dirac spec read_uint/read_sint are the definitions; the '
                'reference implementation is cross-checked against literal table rows and an arithmetic reformulation',
